@@ -125,6 +125,9 @@ func asyncShare(r *hx.Rand, s *Session) {
 			}
 		}
 	}
+	if formsOn {
+		formShare(s)
+	}
 }
 
 func enumerate(n int, f func(seq []int)) {
@@ -439,6 +442,7 @@ func generate(h *harness) {
 		}
 	}
 	flush()
+	run.Note("wall: bounded-exhaustive part done %.1fs after the start of the run", run.Elapsed().Seconds())
 	run.SetExhaustive(true)
 	run.Note("bounded-exhaustive: all sequences over the %d-letter alphabet %v of length ≤ %v behind the preambles [], [init], [init, subscription], [init, subscription, event, subscription] respectively, both protocols, in lockstep (a quiescence point after every step) and — the short ones — also without waiting: %d sessions; spelling variants and endings drawn from the PRNG", nLetters, letterNames, depth, count)
 	// 2. special shapes
@@ -468,6 +472,14 @@ func generate(h *harness) {
 		push(Session{Proto: hx.Pick(run.Rand, []string{"ws", "tws"}), Ending: "sclose", Early: true})
 	}
 	flush()
+	// connections that outlive the keep-alive period (ticker.go): thorough only, the quick tier has the F-08e replay
+	if run.Thorough() {
+		for i := 0; i < 12; i++ {
+			push(idleSession(run.Rand.Fork(), []string{"ws", "tws"}[i%2], i/2))
+		}
+		flush()
+	}
+	run.Note("wall: special shapes (bursts, >100 subscriptions, async streams, groups, slow reader, close-after-dial) done %.1fs after the start of the run", run.Elapsed().Seconds())
 	// 3. random longer histories
 	n := run.Scale(3000, 30000)
 	procs := []int{0}
